@@ -289,6 +289,7 @@ func (x *c18) fieldEnumeration(r *gen.Rand, versions []gmsl.RoomVersion, worlds 
 	sortStrings(names)
 	topFields := []string{"room_id", "sender", "type", "state_key", "content", "depth", "origin_server_ts", "prev_events", "auth_events", "hashes", "signatures", "unsigned", "redacts", "event_id", "origin", "msc4354_sticky", "sticky", "prev_state"}
 	n := 0
+	presentR := r.Fork("presentation")
 	for _, ver := range versions {
 		w := worlds[ver]
 		if w == nil {
@@ -336,15 +337,21 @@ func (x *c18) fieldEnumeration(r *gen.Rand, versions []gmsl.RoomVersion, worlds 
 						mv = rehashAndSign(mutated, w.t)
 						name += ":rehashed"
 					}
-					text := gen.Plain().Bytes(mv)
-					c.Case(name, map[string]any{"version": ver, "base_type": typ, "field": where, "value": vname, "rehashed": rehash, "event": string(text)}, func() {
-						x.entry = name
-						if x.parseAll(ver, w, text) {
-							c.NontrivialBytes(append([]byte(string(ver)+"|"), text...))
-							c.Count("field_cases_accepted_by_a_parser")
-						}
-						c.Count("field_cases")
-					})
+					texts := map[string][]byte{name: gen.Plain().Bytes(mv)}
+					if n%3 == 0 {
+						// the same value in another spelling: random legal escapes (\u0020, \/, surrogate pairs), whitespace, key order
+						texts[name+":respelled"] = gen.ScrambleStrict(presentR).Bytes(mv)
+					}
+					for name, text := range texts {
+						c.Case(name, map[string]any{"version": ver, "base_type": typ, "field": where, "value": vname, "rehashed": rehash, "event": string(text)}, func() {
+							x.entry = name
+							if x.parseAll(ver, w, text) {
+								c.NontrivialBytes(append([]byte(string(ver)+"|"), text...))
+								c.Count("field_cases_accepted_by_a_parser")
+							}
+							c.Count("field_cases")
+						})
+					}
 				}
 			}
 			for _, f := range topFields {
